@@ -46,6 +46,9 @@ MUTANTS += _seeded()
 
 MUTANTS += [
     # ---- C02
+    dict(prop='C02', name='trigger-hands-on-success-only', edits=[(EVENTS,
+         "        self._ok = event._ok\n        self._value = event._value\n        self.env.schedule(self)",
+         "        self._ok = True\n        self._value = event._value\n        self.env.schedule(self)")]),
     dict(prop='C02', name='skip-last-callback-when-3plus', edits=[(CORE,
          "        for callback in callbacks:\n            try:",
          "        for callback in (callbacks[:-1] if len(callbacks) > 3 else callbacks):\n            try:")]),
